@@ -16,6 +16,7 @@ import (
 	"os"
 	"strings"
 
+	"github.com/smart-core-os/sc-api/go/traits"
 	"google.golang.org/grpc"
 	"google.golang.org/grpc/credentials/insecure"
 	"google.golang.org/grpc/test/bufconn"
@@ -76,6 +77,7 @@ func main() {
 	runScripts(f, res, w, drv)
 	runOpen(f, res, w, drv)
 	runSelect(f, res, w, drv)
+	runInvoke(f, res, w, drv)
 	if err := res.Write(f.Out); err != nil {
 		lib.Fatal(err)
 	}
@@ -233,6 +235,21 @@ func mutate(m proto.Message) {
 		x.Msg += "!"
 	case *testproto.BidiStreamResponse:
 		x.Msg += "!"
+	case *traits.GetOnOffRequest:
+		x.Name += "!"
+	case *traits.UpdateOnOffRequest:
+		x.Name += "!"
+		if x.OnOff != nil {
+			x.OnOff.State++
+		}
+	case *traits.PullOnOffRequest:
+		x.Name += "!"
+	case *traits.DescribeOnOffRequest:
+		x.Name += "!"
+	case *traits.GetMetadataRequest:
+		x.Name += "!"
+	case *traits.PullMetadataRequest:
+		x.Name += "!"
 	}
 }
 
